@@ -141,23 +141,47 @@ Qed.
 Lemma seq_ne n : n > 0 -> seq 0 n <> [].
 Proof. destruct n; [lia|discriminate]. Qed.
 
-(* the rank named by [dst] sits at its own index of the group (true for the world group) *)
-Definition dst_ok (g : list nat) (dst : option nat) : Prop :=
+(* [root_ok g d r]: the global rank r handed to a rooted collective is held by group rank d and by
+   nobody else *)
+Definition root_ok (g : list nat) (d r : nat) : Prop :=
+  d < List.length g /\ forall j, j < List.length g -> Nat.eqb (nth j g 0) r = Nat.eqb j d.
+
+(* V_code: the rank named by [dst] must sit at its own index of the group (true for the world
+   group); with fx_dst the name is translated to a global rank and any duplicate-free group is fine *)
+Definition dst_ok (fx : fixes) (g : list nat) (dst : option nat) : Prop :=
   match dst with
   | None => True
-  | Some d => d < List.length g /\ forall j, j < List.length g -> Nat.eqb (nth j g 0) d = Nat.eqb j d
+  | Some d => d < List.length g /\
+      (if fx_dst fx then NoDup g
+       else forall j, j < List.length g -> Nat.eqb (nth j g 0) d = Nat.eqb j d)
   end.
 
-Lemma dst_ok_in_group g d : dst_ok g (Some d) -> in_group g d = true.
+Lemma nth_eqb_NoDup g j d : NoDup g -> j < List.length g -> d < List.length g ->
+  Nat.eqb (nth j g 0) (nth d g 0) = Nat.eqb j d.
+Proof.
+  intros Hnd Hj Hd. destruct (Nat.eqb_spec j d) as [->|Hne]; [apply Nat.eqb_refl|].
+  apply Nat.eqb_neq. intros E. apply Hne. exact (proj1 (NoDup_nth g 0) Hnd j d Hj Hd E).
+Qed.
+
+Lemma global_rank_nth g d : d < List.length g -> global_rank g d = nth d g 0.
+Proof. intros H. unfold global_rank. apply nth_indep, H. Qed.
+
+Lemma dst_ok_root fx g d : dst_ok fx g (Some d) -> root_ok g d (dst_root fx g d).
+Proof.
+  intros [Hd H]. split; [exact Hd|]. unfold dst_root. destruct (fx_dst fx); [|exact H].
+  intros j Hj. rewrite global_rank_nth by exact Hd. apply nth_eqb_NoDup; assumption.
+Qed.
+
+Lemma root_ok_in_group g d r : root_ok g d r -> in_group g r = true.
 Proof.
   intros [Hd Hj]. unfold in_group. apply existsb_exists. exists (nth d g 0). split; [apply nth_In, Hd|].
   specialize (Hj d Hd). rewrite Nat.eqb_refl in Hj. rewrite Nat.eqb_sym. exact Hj.
 Qed.
 
-Lemma dst_ok_world n dst : (match dst with Some d => d < n | None => True end) -> dst_ok (seq 0 n) dst.
+Lemma dst_ok_world fx n dst : (match dst with Some d => d < n | None => True end) -> dst_ok fx (seq 0 n) dst.
 Proof.
   destruct dst as [d|]; [|exact (fun _ => I)]. intros Hd. cbn [dst_ok]. rewrite seq_length. split; [exact Hd|].
-  intros j Hj. rewrite seq_nth by exact Hj. reflexivity.
+  destruct (fx_dst fx); [apply seq_NoDup|]. intros j Hj. rewrite seq_nth by exact Hj. reflexivity.
 Qed.
 
 (* ------------------------------------------------------------------ responses on uniform families *)
@@ -210,19 +234,19 @@ Proof.
   rewrite all_ago_map. rewrite map_map. reflexivity.
 Qed.
 
-(* the rooted part, for a root that sits at its own index *)
-Lemma rooted_ok g d (data : resp) {X} (cs : list X) : List.length g > 0 -> dst_ok g (Some d) ->
-  rooted g d (map (fun i => Nat.eqb i d) (seq 0 (List.length g))) data cs
+(* the rooted part, for a root held by group rank d only *)
+Lemma rooted_ok g d r (data : resp) {X} (cs : list X) : List.length g > 0 -> root_ok g d r ->
+  rooted g r (map (fun i => Nat.eqb i d) (seq 0 (List.length g))) data cs
   = Some (map (fun i => if Nat.eqb i d then data else RNone) (seq 0 (List.length g))).
 Proof.
-  intros Hn Hok. pose proof (dst_ok_in_group g d Hok) as Hin. destruct Hok as [Hd Hj].
+  intros Hn Hok. pose proof (root_ok_in_group g d r Hok) as Hin. destruct Hok as [Hd Hj].
   unfold rooted. cbv zeta. set (n := List.length g) in *.
   assert (Eg : map (fun j => nth j g 0) (seq 0 n) = g) by apply map_nth_seq.
-  assert (E : map2 (lerr g d) g (map (fun i => Nat.eqb i d) (seq 0 n)) = map (fun _ => false) (seq 0 n)).
+  assert (E : map2 (lerr g r) g (map (fun i => Nat.eqb i d) (seq 0 n)) = map (fun _ => false) (seq 0 n)).
   { rewrite <- Eg at 2. rewrite map2_map.
     apply map_ext_in. intros j Hjn. apply in_seq in Hjn. unfold lerr. rewrite Hin, Hj by lia.
     destruct (Nat.eqb j d); reflexivity. }
-  assert (E2 : map (fun gj => if Nat.eqb gj d then data else RNone) g
+  assert (E2 : map (fun gj => if Nat.eqb gj r then data else RNone) g
                = map (fun i => if Nat.eqb i d then data else RNone) (seq 0 n)).
   { rewrite <- Eg at 1. rewrite map_map.
     apply map_ext_in. intros j Hjn. apply in_seq in Hjn. rewrite Hj by lia. reflexivity. }
@@ -263,24 +287,24 @@ Proof.
   reflexivity.
 Qed.
 
-Lemma respond_gather g d (t : nat -> tensor) (m : meta) : let n := List.length g in
-  n > 0 -> dst_ok g (Some d) -> (forall i, i < n -> meta_of (t i) = m) ->
-  respond g (map (fun i => Gather d (Nat.eqb i d) (t i)) (seq 0 n))
+Lemma respond_gather g d r (t : nat -> tensor) (m : meta) : let n := List.length g in
+  n > 0 -> root_ok g d r -> (forall i, i < n -> meta_of (t i) = m) ->
+  respond g (map (fun i => Gather r (Nat.eqb i d) (t i)) (seq 0 n))
   = Some (map (fun i => if Nat.eqb i d then RTens (map t (seq 0 n)) else RNone) (seq 0 n)).
 Proof.
   intros n Hn Hok Hm.
-  rewrite (respond_gather_gen g d (fun i => Nat.eqb i d) t m);
+  rewrite (respond_gather_gen g r (fun i => Nat.eqb i d) t m);
     [apply rooted_ok; assumption|apply seq_ne, Hn|apply seq_length|].
   intros x Hx. apply in_seq in Hx. apply Hm. lia.
 Qed.
 
-Lemma respond_gatherobj g d (v : nat -> val) : let n := List.length g in
-  n > 0 -> dst_ok g (Some d) ->
-  respond g (map (fun i => GatherObj d (Nat.eqb i d) (v i)) (seq 0 n))
+Lemma respond_gatherobj g d r (v : nat -> val) : let n := List.length g in
+  n > 0 -> root_ok g d r ->
+  respond g (map (fun i => GatherObj r (Nat.eqb i d) (v i)) (seq 0 n))
   = Some (map (fun i => if Nat.eqb i d then RObjs (map v (seq 0 n)) else RNone) (seq 0 n)).
 Proof.
   intros n Hn Hok.
-  rewrite (respond_gatherobj_gen g d (fun i => Nat.eqb i d) v);
+  rewrite (respond_gatherobj_gen g r (fun i => Nat.eqb i d) v);
     [apply rooted_ok; assumption|apply seq_ne, Hn|apply seq_length].
 Qed.
 
@@ -326,14 +350,14 @@ Ltac step c rf := refine (stepK _ c rf _ _ _ _ _ _ _).
 Ltac bindr_with p ra := refine (bindrK _ p ra _ _ _ _ _).
 
 (* ------------------------------------------------------------------ send_tensors *)
-Lemma simple_send_run g dst (t : nat -> tensor) (m : meta) : let n := List.length g in
-  n > 0 -> dst_ok g dst -> (forall i, i < n -> meta_of (t i) = m) ->
-  run_all (respond g) (map (fun i => simple_send dst i (t i)) (seq 0 n))
+Lemma simple_send_run fx g dst (t : nat -> tensor) (m : meta) : let n := List.length g in
+  n > 0 -> dst_ok fx g dst -> (forall i, i < n -> meta_of (t i) = m) ->
+  run_all (respond g) (map (fun i => simple_send fx g dst i (t i)) (seq 0 n))
   = Some (map (fun i => Ok (if receives dst i then Some (map t (seq 0 n)) else None)) (seq 0 n)).
 Proof.
   intros n Hn Hok Hm. destruct dst as [d|]; unfold simple_send.
-  - step (fun i => Gather d (Nat.eqb i d) (t i)) (fun i => if Nat.eqb i d then RTens (map t (seq 0 n)) else RNone);
-      [apply seq_ne, Hn|intros; reflexivity|apply (respond_gather g d t m Hn Hok Hm)|].
+  - step (fun i => Gather (dst_root fx g d) (Nat.eqb i d) (t i)) (fun i => if Nat.eqb i d then RTens (map t (seq 0 n)) else RNone);
+      [apply seq_ne, Hn|intros; reflexivity|apply (respond_gather g d _ t m Hn (dst_ok_root fx g d Hok) Hm)|].
     apply run_all_ret_ext. intros i _. cbn [receives cont]. destruct (Nat.eqb i d); reflexivity.
   - step (fun i => AllGather (t i)) (fun _ : nat => RTens (map t (seq 0 n)));
       [apply seq_ne, Hn|intros; reflexivity|apply (respond_allgather g t m); [apply seq_ne, Hn|apply seq_length|]|].
@@ -346,9 +370,9 @@ Definition tens_ok (d : nat) (z : Z) (t : tensor) : Prop := wf (shp t) (dat t) /
 Lemma of_shape_meta t d : ndim t = d -> meta_of (of_shape (shp t)) = (I64, [d]).
 Proof. intros <-. reflexivity. Qed.
 
-Lemma send_uneven_run g dst (ts : nat -> tensor) d z : let n := List.length g in
-  n > 0 -> dst_ok g dst -> (forall i, i < n -> tens_ok d z (ts i)) ->
-  run_all (respond g) (map (fun i => send_uneven dst i (ts i)) (seq 0 n))
+Lemma send_uneven_run fx g dst (ts : nat -> tensor) d z : let n := List.length g in
+  n > 0 -> dst_ok fx g dst -> (forall i, i < n -> tens_ok d z (ts i)) ->
+  run_all (respond g) (map (fun i => send_uneven fx g dst i (ts i)) (seq 0 n))
   = Some (map (fun i => Ok (if receives dst i then Some (map ts (seq 0 n)) else None)) (seq 0 n)).
 Proof.
   intros n Hn Hok Ht. unfold send_uneven.
@@ -362,7 +386,7 @@ Proof.
   rewrite (map_ext (fun x => to_shape (of_shape (shp (ts x)))) (fun x => shp (ts x))) by (intros; apply to_of_shape).
   set (sizes := map (fun x => shp (ts x)) (seq 0 n)).
   destruct (all_eq sizes) eqn:Heq.
-  - apply (simple_send_run g dst ts (z, shp (ts 0)) Hn Hok). intros i Hi. unfold meta_of. f_equal.
+  - apply (simple_send_run fx g dst ts (z, shp (ts 0)) Hn Hok). intros i Hi. unfold meta_of. f_equal.
     + apply Ht, Hi.
     + apply (all_eq_true _ Heq); unfold sizes.
       * apply (in_map (fun x => shp (ts x))), in_seq. lia.
@@ -372,40 +396,40 @@ Proof.
     { intros i Hi. apply (maxshape_ge sizes d).
       - intros s Hs. apply in_map_iff in Hs as (x & <- & Hx). apply in_seq in Hx. apply (Ht x). lia.
       - apply (in_map (fun x => shp (ts x))), in_seq. lia. }
-    bindr_with (fun i => simple_send dst i (tpad m (ts i)))
+    bindr_with (fun i => simple_send fx g dst i (tpad m (ts i)))
                (fun i => if receives dst i then Some (map (fun i => tpad m (ts i)) (seq 0 n)) else None).
-    { apply (simple_send_run g dst (fun i => tpad m (ts i)) (z, m) Hn Hok).
+    { apply (simple_send_run fx g dst (fun i => tpad m (ts i)) (z, m) Hn Hok).
       intros i Hi. unfold meta_of, tpad. cbn [dt shp]. f_equal. apply Ht, Hi. }
     apply run_all_ret_ext. intros i _. destruct (receives dst i); [|reflexivity]. cbn [option_map].
     do 3 f_equal. unfold sizes. rewrite map2_map. apply map_ext_in. intros j Hj. apply in_seq in Hj.
     apply tslice_tpad; [apply Ht; lia|apply Hle; lia].
 Qed.
 
-Theorem send_tensors_lossless g dst (ts : nat -> tensor) d z : let n := List.length g in
-  n > 0 -> dst_ok g dst -> (forall i, i < n -> tens_ok d z (ts i)) ->
-  run_all (respond g) (map (fun i => send_tensors dst i (ts i)) (seq 0 n))
+Theorem send_tensors_lossless fx g dst (ts : nat -> tensor) d z : let n := List.length g in
+  n > 0 -> dst_ok fx g dst -> (forall i, i < n -> tens_ok d z (ts i)) ->
+  run_all (respond g) (map (fun i => send_tensors fx g dst i (ts i)) (seq 0 n))
   = Some (map (fun i => Ok (if receives dst i then Some (map ts (seq 0 n)) else None)) (seq 0 n)).
 Proof.
   intros n Hn Hok Ht. destruct d as [|d'].
-  - refine (extK g (fun i => simple_send dst i (ts i)) _ _ _ _ _).
+  - refine (extK g (fun i => simple_send fx g dst i (ts i)) _ _ _ _ _).
     + intros i Hi. apply in_seq in Hi. destruct (Ht i ltac:(lia)) as (_ & Hd & _). unfold send_tensors, ndim in *.
       destruct (shp (ts i)); [reflexivity|discriminate].
-    + apply (simple_send_run g dst ts (z, []) Hn Hok). intros i Hi. destruct (Ht i Hi) as (_ & Hd & Hz).
+    + apply (simple_send_run fx g dst ts (z, []) Hn Hok). intros i Hi. destruct (Ht i Hi) as (_ & Hd & Hz).
       unfold meta_of. f_equal; [exact Hz|]. unfold ndim in Hd. destruct (shp (ts i)); [reflexivity|discriminate].
-  - refine (extK g (fun i => send_uneven dst i (ts i)) _ _ _ _ _).
+  - refine (extK g (fun i => send_uneven fx g dst i (ts i)) _ _ _ _ _).
     + intros i Hi. apply in_seq in Hi. destruct (Ht i ltac:(lia)) as (_ & Hd & _). unfold send_tensors, ndim in *.
       destruct (shp (ts i)); [discriminate|reflexivity].
-    + apply (send_uneven_run g dst ts (S d') z Hn Hok Ht).
+    + apply (send_uneven_run fx g dst ts (S d') z Hn Hok Ht).
 Qed.
 
-Corollary dst_only_receives g d (ts : nat -> tensor) dd z : let n := List.length g in
-  n > 0 -> dst_ok g (Some d) -> (forall i, i < n -> tens_ok dd z (ts i)) ->
-  exists out, run_all (respond g) (map (fun i => send_tensors (Some d) i (ts i)) (seq 0 n)) = Some out /\
+Corollary dst_only_receives fx g d (ts : nat -> tensor) dd z : let n := List.length g in
+  n > 0 -> dst_ok fx g (Some d) -> (forall i, i < n -> tens_ok dd z (ts i)) ->
+  exists out, run_all (respond g) (map (fun i => send_tensors fx g (Some d) i (ts i)) (seq 0 n)) = Some out /\
     List.length out = n /\
     nth d out (Exc "") = Ok (Some (map ts (seq 0 n))) /\
     forall i, i < n -> i <> d -> nth i out (Exc "") = Ok None.
 Proof.
-  intros n Hn Hok Ht. eexists. split; [apply (send_tensors_lossless g (Some d) ts dd z Hn Hok Ht)|].
+  intros n Hn Hok Ht. eexists. split; [apply (send_tensors_lossless fx g (Some d) ts dd z Hn Hok Ht)|].
   fold n. split; [rewrite map_length; apply seq_length|].
   split.
   - destruct Hok as [Hd _]. rewrite nth_map_seq by exact Hd. cbn [receives]. rewrite Nat.eqb_refl. reflexivity.
@@ -425,15 +449,15 @@ Proof.
 Qed.
 
 (* ------------------------------------------------------------------ sync_obj *)
-Theorem obj_sync_lossless g dst Wg (vs : nat -> val) : let n := List.length g in
-  n > 0 -> dst_ok g dst ->
-  run_all (respond g) (map (fun i => sync_obj dst i Wg (vs i)) (seq 0 n))
+Theorem obj_sync_lossless fx g dst Wg (vs : nat -> val) : let n := List.length g in
+  n > 0 -> dst_ok fx g dst ->
+  run_all (respond g) (map (fun i => sync_obj fx g dst i Wg (vs i)) (seq 0 n))
   = Some (map (fun i => Ok (if receives dst i then pad_slots Wg (map (fun j => GO (vs j)) (seq 0 n))
                             else untouched Wg)) (seq 0 n)).
 Proof.
   intros n Hn Hok. destruct dst as [d|]; unfold sync_obj.
-  - step (fun i => GatherObj d (Nat.eqb i d) (vs i)) (fun i => if Nat.eqb i d then RObjs (map vs (seq 0 n)) else RNone);
-      [apply seq_ne, Hn|intros; reflexivity|apply (respond_gatherobj g d vs Hn Hok)|].
+  - step (fun i => GatherObj (dst_root fx g d) (Nat.eqb i d) (vs i)) (fun i => if Nat.eqb i d then RObjs (map vs (seq 0 n)) else RNone);
+      [apply seq_ne, Hn|intros; reflexivity|apply (respond_gatherobj g d _ vs Hn (dst_ok_root fx g d Hok))|].
     apply run_all_ret_ext. intros i _. cbn [receives cont]. destruct (Nat.eqb i d); [|reflexivity].
     rewrite map_map. reflexivity.
   - step (fun i => AllGatherObj (vs i)) (fun _ : nat => RObjs (map vs (seq 0 n)));
@@ -488,32 +512,32 @@ Qed.
 Lemma tens_ok_dummy d z m : List.length (snd m) = d -> fst m = z -> tens_ok d z (dummy m).
 Proof. intros H1 H2. unfold tens_ok, dummy, ndim. cbn [shp dat dt]. split; [apply wf_zeros|]. split; assumption. Qed.
 
-Lemma list_loop_S dst i m lens xs k f acc :
-  list_loop dst i m lens xs k (S f) acc
-  = bindr (send_tensors dst i (nth k xs (dummy m))) (fun o =>
-      list_loop dst i m lens xs (S k) f (match o with Some ts => collect k acc ts lens | None => acc end)).
+Lemma list_loop_S fx g dst i m lens xs k f acc :
+  list_loop fx g dst i m lens xs k (S f) acc
+  = bindr (send_tensors fx g dst i (nth k xs (dummy m))) (fun o =>
+      list_loop fx g dst i m lens xs (S k) f (match o with Some ts => collect k acc ts lens | None => acc end)).
 Proof. reflexivity. Qed.
 
-Lemma list_loop_run g dst Wg (xss : nat -> list tensor) (ms : nat -> meta) d z : let n := List.length g in
-  n > 0 -> dst_ok g dst ->
+Lemma list_loop_run fx g dst Wg (xss : nat -> list tensor) (ms : nat -> meta) d z : let n := List.length g in
+  n > 0 -> dst_ok fx g dst ->
   (forall i, i < n -> forall t, In t (xss i) -> tens_ok d z t) ->
   (forall i, i < n -> List.length (snd (ms i)) = d /\ fst (ms i) = z) ->
   forall fuel k,
   run_all (respond g)
-    (map (fun i => list_loop dst i (ms i) (map (fun j => List.length (xss j)) (seq 0 n)) (xss i) k fuel
+    (map (fun i => list_loop fx g dst i (ms i) (map (fun j => List.length (xss j)) (seq 0 n)) (xss i) k fuel
                      (if receives dst i then accR Wg n xss k else untouched Wg)) (seq 0 n))
   = Some (map (fun i => Ok (if receives dst i then accR Wg n xss (k + fuel) else untouched Wg)) (seq 0 n)).
 Proof.
   intros n Hn Hok Ht Hms. induction fuel as [|fuel IH]; intros k.
   - apply run_all_ret_ext. intros i _. rewrite Nat.add_0_r. reflexivity.
-  - refine (extK g _ _ _ _ (fun i _ => list_loop_S _ _ _ _ _ _ _ _) _).
-    bindr_with (fun i => send_tensors dst i (nth k (xss i) (dummy (ms i))))
+  - refine (extK g _ _ _ _ (fun i _ => list_loop_S _ _ _ _ _ _ _ _ _ _) _).
+    bindr_with (fun i => send_tensors fx g dst i (nth k (xss i) (dummy (ms i))))
                (fun i => if receives dst i then Some (map (fun j => nth k (xss j) (dummy (ms j))) (seq 0 n)) else None).
-    { apply (send_tensors_lossless g dst (fun i => nth k (xss i) (dummy (ms i))) d z Hn Hok).
+    { apply (send_tensors_lossless fx g dst (fun i => nth k (xss i) (dummy (ms i))) d z Hn Hok).
       intros i Hi. destruct (Nat.lt_ge_cases k (List.length (xss i))) as [Hlt|Hge].
       - apply (Ht i Hi), nth_In, Hlt.
       - rewrite nth_overflow by lia. apply tens_ok_dummy; apply (Hms i Hi). }
-    refine (extK g (fun i => list_loop dst i (ms i) (map (fun j => List.length (xss j)) (seq 0 n)) (xss i) (S k) fuel
+    refine (extK g (fun i => list_loop fx g dst i (ms i) (map (fun j => List.length (xss j)) (seq 0 n)) (xss i) (S k) fuel
                      (if receives dst i then accR Wg n xss (S k) else untouched Wg)) _ _ _ _ _).
     + intros i _. destruct (receives dst i); [|reflexivity]. f_equal. apply collect_accR.
     + rewrite IH. rewrite Nat.add_succ_r. reflexivity.
@@ -540,6 +564,14 @@ Proof.
 Qed.
 Lemma in_group_seq n s : s < n -> in_group (seq 0 n) s = true.
 Proof. intros H. unfold in_group. apply existsb_exists. exists s. split; [apply in_seq; lia|apply Nat.eqb_refl]. Qed.
+Lemma index_of_nth_NoDup : forall g r, NoDup g -> r < List.length g -> index_of (nth r g 0) g = r.
+Proof.
+  induction g as [|x g IH]; intros r Hnd Hr; cbn in Hr; [lia|]. inversion Hnd as [|? ? Hnin Hnd']; subst.
+  destruct r as [|r]; cbn [nth index_of]; [rewrite Nat.eqb_refl; reflexivity|].
+  destruct (Nat.eqb_spec x (nth r g 0)) as [E|_].
+  - exfalso. apply Hnin. rewrite E. apply nth_In. lia.
+  - f_equal. apply IH; [exact Hnd'|lia].
+Qed.
 
 Lemma respond_bcast_gen g s {X} (v : X -> option meta) (xs : list X) :
   xs <> [] -> List.length xs = List.length g ->
@@ -553,22 +585,64 @@ Proof.
   rewrite all_bco_map. rewrite !map_map. reflexivity.
 Qed.
 
-Lemma respond_bcast_world n s (v : nat -> option meta) : s < n ->
-  respond (seq 0 n) (map (fun i => BcastObj s (v i)) (seq 0 n)) = Some (map (fun _ => RMeta (v s)) (seq 0 n)).
+(* the broadcast source: V_code hands the GROUP rank to broadcast_object_list, which is right only
+   on the world group; with fx_d9 it is translated and any duplicate-free group is fine *)
+Definition src_ok (fx : fixes) (g : list nat) : Prop :=
+  if fx_d9 fx then NoDup g else g = seq 0 (List.length g).
+
+Lemma src_ok_root fx g r : src_ok fx g -> r < List.length g ->
+  in_group g (src_root fx g r) = true /\ index_of (src_root fx g r) g = r.
 Proof.
-  intros Hs. rewrite respond_bcast_gen; [|apply seq_ne; lia|reflexivity].
-  rewrite in_group_seq by exact Hs. rewrite index_of_seq by lia. rewrite Nat.sub_0_r.
-  rewrite nth_map_seq by exact Hs. reflexivity.
+  unfold src_ok, src_root. destruct (fx_d9 fx); intros H Hr.
+  - rewrite global_rank_nth by exact Hr. split; [|apply index_of_nth_NoDup; assumption].
+    unfold in_group. apply existsb_exists. exists (nth r g 0). split; [apply nth_In, Hr|apply Nat.eqb_refl].
+  - remember (List.length g) as n eqn:En. subst g. split; [apply in_group_seq, Hr|].
+    rewrite index_of_seq by lia. lia.
 Qed.
 
-Lemma sync_dtype_shape_run n (xss : nat -> list tensor) d z :
-  n > 0 -> (exists i, i < n /\ xss i <> []) ->
+Lemma respond_bcast g s r (v : nat -> option meta) : let n := List.length g in
+  r < n -> in_group g s = true -> index_of s g = r ->
+  respond g (map (fun i => BcastObj s (v i)) (seq 0 n)) = Some (map (fun _ => RMeta (v r)) (seq 0 n)).
+Proof.
+  intros n Hr Hin Hidx. rewrite respond_bcast_gen; [|apply seq_ne; lia|apply seq_length].
+  rewrite Hin, Hidx. rewrite nth_map_seq by exact Hr. reflexivity.
+Qed.
+
+Lemma maxZ_all_m1 l : (forall x, In x l -> x = (-1)%Z) -> maxZ l = (-1)%Z.
+Proof.
+  induction l as [|y l IH]; intros H; [reflexivity|]. unfold maxZ in *. cbn [fold_right].
+  rewrite IH by (intros x Hx; apply H; right; exact Hx). rewrite (H y (or_introl eq_refl)). reflexivity.
+Qed.
+
+Lemma sync_dtype_shape_none fx g (xss : nat -> list tensor) : let n := List.length g in
+  n > 0 -> (forall i, i < n -> xss i = []) ->
+  run_all (respond g) (map (fun i => sync_dtype_shape fx g i (hd_error (xss i))) (seq 0 n))
+  = Some (map (fun _ => Ok None) (seq 0 n)).
+Proof.
+  intros n Hn Hall.
+  set (f := fun i => match hd_error (xss i) with Some _ => Z.of_nat i | None => (-1)%Z end).
+  assert (Hne : seq 0 n <> []) by apply seq_ne, Hn.
+  assert (Emax : maxZ (map f (seq 0 n)) = (-1)%Z).
+  { apply maxZ_all_m1. intros x Hx. apply in_map_iff in Hx as (i & <- & Hi). apply in_seq in Hi.
+    unfold f. rewrite Hall by lia. reflexivity. }
+  unfold sync_dtype_shape.
+  step (fun i => AllGatherObj (VZ (match hd_error (xss i) with Some _ => Z.of_nat i | None => (-1)%Z end)))
+       (fun _ : nat => RObjs (map (fun i => VZ (f i)) (seq 0 n)));
+    [exact Hne|intros; reflexivity|apply (respond_allgatherobj g (fun i => VZ (f i))); [exact Hne|apply seq_length]|].
+  cbv beta iota zeta delta [cont]. rewrite map_map.
+  rewrite (map_ext (fun x => vZ (VZ (f x))) f) by reflexivity. rewrite Emax.
+  change (Z.eqb (-1) (-1)) with true. cbv iota.
+  apply run_all_ret_ext. intros i _. reflexivity.
+Qed.
+
+Lemma sync_dtype_shape_run fx g (xss : nat -> list tensor) d z : let n := List.length g in
+  n > 0 -> src_ok fx g -> (exists i, i < n /\ xss i <> []) ->
   (forall i, i < n -> forall t, In t (xss i) -> tens_ok d z t) ->
   exists mr, (List.length (snd mr) = d /\ fst mr = z) /\
-    run_all (respond (seq 0 n)) (map (fun i => sync_dtype_shape i (hd_error (xss i))) (seq 0 n))
+    run_all (respond g) (map (fun i => sync_dtype_shape fx g i (hd_error (xss i))) (seq 0 n))
     = Some (map (fun _ => Ok (Some mr)) (seq 0 n)).
 Proof.
-  intros Hn (i0 & Hi0 & Hne0) Ht.
+  intros n Hn Hsrc (i0 & Hi0 & Hne0) Ht.
   set (f := fun i => match hd_error (xss i) with Some _ => Z.of_nat i | None => (-1)%Z end).
   assert (Hr : exists r x l, r < n /\ xss r = x :: l /\ maxZ (map f (seq 0 n)) = Z.of_nat r).
   { assert (Hge : (Z.of_nat i0 <= maxZ (map f (seq 0 n)))%Z).
@@ -583,18 +657,29 @@ Proof.
   exists (meta_of x). split.
   { destruct (Ht r Hrn x) as (_ & Hd & Hz); [rewrite Ex; left; reflexivity|]. split; assumption. }
   assert (Hne : seq 0 n <> []) by apply seq_ne, Hn.
+  destruct (src_ok_root fx g r Hsrc Hrn) as [Hin Hidx].
   unfold sync_dtype_shape.
   step (fun i => AllGatherObj (VZ (match hd_error (xss i) with Some _ => Z.of_nat i | None => (-1)%Z end)))
        (fun _ : nat => RObjs (map (fun i => VZ (f i)) (seq 0 n)));
-    [exact Hne|intros; reflexivity|apply (respond_allgatherobj (seq 0 n) (fun i => VZ (f i))); [exact Hne|reflexivity]|].
+    [exact Hne|intros; reflexivity|apply (respond_allgatherobj g (fun i => VZ (f i))); [exact Hne|apply seq_length]|].
   cbv beta iota zeta delta [cont]. rewrite map_map.
   rewrite (map_ext (fun x => vZ (VZ (f x))) f) by reflexivity. rewrite Emax.
   destruct (Z.eqb_spec (Z.of_nat r) (-1)) as [Hm1|_]; [lia|]. rewrite Nat2Z.id.
-  step (fun i => BcastObj r (if Z.eqb (Z.of_nat i) (Z.of_nat r) then option_map meta_of (hd_error (xss i)) else None))
+  step (fun i => BcastObj (src_root fx g r)
+                   (if Z.eqb (Z.of_nat i) (Z.of_nat r) then option_map meta_of (hd_error (xss i)) else None))
        (fun _ : nat => RMeta (Some (meta_of x)));
     [exact Hne|intros; reflexivity| |].
-  { rewrite respond_bcast_world by exact Hrn. rewrite Z.eqb_refl, Ex. reflexivity. }
+  { rewrite (respond_bcast g (src_root fx g r) r) by assumption. rewrite Z.eqb_refl, Ex. reflexivity. }
   apply run_all_ret_ext. intros i _. reflexivity.
+Qed.
+
+Lemma all_empty_dec (xss : nat -> list tensor) n :
+  (forall i, i < n -> xss i = []) \/ (exists i, i < n /\ xss i <> []).
+Proof.
+  induction n as [|n [IH|(i & Hi & Hne)]]; [left; intros; lia| |right; exists i; split; [lia|exact Hne]].
+  destruct (xss n) eqn:E.
+  - left. intros i Hi. destruct (Nat.eq_dec i n) as [->|]; [exact E|apply IH; lia].
+  - right. exists n. split; [lia|]. rewrite E. discriminate.
 Qed.
 
 Lemma maxl_ge : forall l x, In x l -> x <= maxl l.
@@ -610,12 +695,12 @@ Proof.
   destruct K as [|K]; [lia|]. rewrite firstn_all2 by (apply Hl; lia). reflexivity.
 Qed.
 
-Theorem list_sync_lossless g dst Wg (xss : nat -> list tensor) d z : let n := List.length g in
-  n > 0 -> n <= Wg -> dst_ok g dst ->
+Lemma list_sync_some fx g dst Wg (xss : nat -> list tensor) d z : let n := List.length g in
+  n > 0 -> n <= Wg -> dst_ok fx g dst ->
   (forall i, i < n -> forall t, In t (xss i) -> tens_ok d z t) ->
   (exists i, i < n /\ xss i <> []) ->
-  ((exists i, i < n /\ xss i = []) -> g = seq 0 n) ->
-  run_all (respond g) (map (fun i => sync_list dst i Wg (xss i)) (seq 0 n))
+  ((exists i, i < n /\ xss i = []) -> src_ok fx g) ->
+  run_all (respond g) (map (fun i => sync_list fx g dst i Wg (xss i)) (seq 0 n))
   = Some (map (fun i => Ok (if receives dst i then pad_slots Wg (map (fun j => GL (xss j)) (seq 0 n))
                             else untouched Wg)) (seq 0 n)).
 Proof.
@@ -630,14 +715,14 @@ Proof.
   { apply accR_final; [exact HK|]. intros j Hj. apply maxl_ge. unfold lens.
     apply (in_map (fun j => List.length (xss j))), in_seq. lia. }
   assert (Hloop : forall ms : nat -> meta, (forall i, i < n -> List.length (snd (ms i)) = d /\ fst (ms i) = z) ->
-    run_all (respond g) (map (fun i => list_loop dst i (ms i) lens (xss i) 0 (maxl lens) (untouched Wg)) (seq 0 n))
+    run_all (respond g) (map (fun i => list_loop fx g dst i (ms i) lens (xss i) 0 (maxl lens) (untouched Wg)) (seq 0 n))
     = Some (map (fun i => Ok (if receives dst i then pad_slots Wg (map (fun j => GL (xss j)) (seq 0 n))
                               else untouched Wg)) (seq 0 n))).
   { intros ms Hms. rewrite <- Hfin.
-    refine (extK g (fun i => list_loop dst i (ms i) lens (xss i) 0 (maxl lens)
+    refine (extK g (fun i => list_loop fx g dst i (ms i) lens (xss i) 0 (maxl lens)
                                (if receives dst i then accR Wg n xss 0 else untouched Wg)) _ _ _ _ _).
     - intros i _. destruct (receives dst i); [|reflexivity]. f_equal. unfold accR. apply untouched_split, HW.
-    - apply (list_loop_run g dst Wg xss ms d z Hn Hok Ht Hms). }
+    - apply (list_loop_run fx g dst Wg xss ms d z Hn Hok Ht Hms). }
   unfold sync_list.
   step (fun i => AllGatherObj (VZ (Z.of_nat (List.length (xss i)))))
        (fun _ : nat => RObjs (map (fun i => VZ (Z.of_nat (List.length (xss i)))) (seq 0 n)));
@@ -646,18 +731,18 @@ Proof.
   rewrite (map_ext (fun x => Z.to_nat (vZ (VZ (Z.of_nat (List.length (xss x)))))) (fun x => List.length (xss x)))
     by (intros; apply Nat2Z.id).
   fold lens. destruct (existsb (Nat.eqb 0) lens) eqn:Hex.
-  - (* some rank holds an empty list: dtype/shape broadcast, world group only *)
-    assert (Hg : g = seq 0 n).
+  - (* some rank holds an empty list: dtype/shape broadcast *)
+    assert (Hg : src_ok fx g).
     { apply Hempty. apply existsb_exists in Hex as (len & Hin & E). apply Nat.eqb_eq in E. subst len.
       unfold lens in Hin. apply in_map_iff in Hin as (i & El & Hi). apply in_seq in Hi.
       exists i. split; [lia|]. apply length_zero_iff_nil. exact El. }
-    destruct (sync_dtype_shape_run n xss d z Hn Hsome Ht) as (mr & Hmr & Hrun).
-    bindr_with (fun i => sync_dtype_shape i (hd_error (xss i))) (fun _ : nat => Some mr).
-    { replace (respond g) with (respond (seq 0 n)); [exact Hrun|f_equal; symmetry; exact Hg]. }
+    destruct (sync_dtype_shape_run fx g xss d z Hn Hg Hsome Ht) as (mr & Hmr & Hrun).
+    bindr_with (fun i => sync_dtype_shape fx g i (hd_error (xss i))) (fun _ : nat => Some mr).
+    { exact Hrun. }
     apply (Hloop (fun _ => mr)). intros i _. exact Hmr.
   - (* no rank is empty *)
     set (ms := fun i => match xss i with x0 :: _ => meta_of x0 | [] => (z, repeat 0 d) end).
-    refine (extK g (fun i => list_loop dst i (ms i) lens (xss i) 0 (maxl lens) (untouched Wg)) _ _ _ _ _).
+    refine (extK g (fun i => list_loop fx g dst i (ms i) lens (xss i) 0 (maxl lens) (untouched Wg)) _ _ _ _ _).
     + intros i Hi. apply in_seq in Hi. unfold ms. destruct (xss i) as [|x0 l] eqn:Ex; [|reflexivity].
       exfalso. assert (Hf : existsb (Nat.eqb 0) lens = true); [|congruence].
       apply existsb_exists. exists 0. split; [|reflexivity]. unfold lens.
@@ -665,6 +750,64 @@ Proof.
     + apply Hloop. intros i Hi. unfold ms. destruct (xss i) as [|x0 l] eqn:Ex.
       * cbn [fst snd]. rewrite repeat_length. split; reflexivity.
       * destruct (Ht i Hi x0) as (_ & Hd & Hz); [rewrite Ex; left; reflexivity|]. split; assumption.
+Qed.
+
+
+Lemma list_sync_all_empty fx g dst Wg (xss : nat -> list tensor) : let n := List.length g in
+  n > 0 -> fx_d12 fx = true -> (forall i, i < n -> xss i = []) ->
+  run_all (respond g) (map (fun i => sync_list fx g dst i Wg (xss i)) (seq 0 n))
+  = Some (map (fun i => Ok (if receives dst i then pad_slots Wg (map (fun j => GL (xss j)) (seq 0 n))
+                            else untouched Wg)) (seq 0 n)).
+Proof.
+  intros n Hn H12 Hall.
+  assert (Hne : seq 0 n <> []) by apply seq_ne, Hn.
+  set (lens := map (fun j => List.length (xss j)) (seq 0 n)).
+  unfold sync_list.
+  step (fun i => AllGatherObj (VZ (Z.of_nat (List.length (xss i)))))
+       (fun _ : nat => RObjs (map (fun i => VZ (Z.of_nat (List.length (xss i)))) (seq 0 n)));
+    [exact Hne|intros; reflexivity|apply (respond_allgatherobj g (fun i => VZ (Z.of_nat (List.length (xss i))))); [exact Hne|apply seq_length]|].
+  cbv beta iota zeta delta [cont]. rewrite map_map.
+  rewrite (map_ext (fun x => Z.to_nat (vZ (VZ (Z.of_nat (List.length (xss x)))))) (fun x => List.length (xss x)))
+    by (intros; apply Nat2Z.id).
+  fold lens.
+  assert (Hex : existsb (Nat.eqb 0) lens = true).
+  { apply existsb_exists. exists 0. split; [|reflexivity]. unfold lens. apply in_map_iff. exists 0.
+    split; [rewrite Hall by exact Hn; reflexivity|apply in_seq; lia]. }
+  rewrite Hex.
+  bindr_with (fun i => sync_dtype_shape fx g i (hd_error (xss i))) (fun _ : nat => @None meta).
+  { apply (sync_dtype_shape_none fx g xss Hn Hall). }
+  apply run_all_ret_ext. intros i _. rewrite H12. cbn [andb]. destruct (receives dst i); [|reflexivity].
+  do 3 f_equal. unfold lens. rewrite map_map. apply map_ext_in. intros j Hj. apply in_seq in Hj.
+  rewrite Hall by lia. reflexivity.
+Qed.
+
+(* general form: the group condition is needed only when empty and non-empty lists coexist *)
+Theorem list_sync_lossless_gen fx g dst Wg (xss : nat -> list tensor) d z : let n := List.length g in
+  n > 0 -> n <= Wg -> dst_ok fx g dst ->
+  (forall i, i < n -> forall t, In t (xss i) -> tens_ok d z t) ->
+  (fx_d12 fx = true \/ exists i, i < n /\ xss i <> []) ->
+  ((exists i, i < n /\ xss i = []) -> (exists i, i < n /\ xss i <> []) -> src_ok fx g) ->
+  run_all (respond g) (map (fun i => sync_list fx g dst i Wg (xss i)) (seq 0 n))
+  = Some (map (fun i => Ok (if receives dst i then pad_slots Wg (map (fun j => GL (xss j)) (seq 0 n))
+                            else untouched Wg)) (seq 0 n)).
+Proof.
+  intros n Hn HW Hok Ht H12 Hsrc. destruct (all_empty_dec xss n) as [Hall|Hsome].
+  - destruct H12 as [H12|(i & Hi & Hne)]; [|exfalso; apply Hne, Hall, Hi].
+    apply (list_sync_all_empty fx g dst Wg xss Hn H12 Hall).
+  - apply (list_sync_some fx g dst Wg xss d z Hn HW Hok Ht Hsome). intros He. apply Hsrc; assumption.
+Qed.
+
+Theorem list_sync_lossless fx g dst Wg (xss : nat -> list tensor) d z : let n := List.length g in
+  n > 0 -> n <= Wg -> dst_ok fx g dst ->
+  (forall i, i < n -> forall t, In t (xss i) -> tens_ok d z t) ->
+  (fx_d12 fx = true \/ exists i, i < n /\ xss i <> []) ->
+  ((exists i, i < n /\ xss i = []) -> (if fx_d9 fx then NoDup g else g = seq 0 n)) ->
+  run_all (respond g) (map (fun i => sync_list fx g dst i Wg (xss i)) (seq 0 n))
+  = Some (map (fun i => Ok (if receives dst i then pad_slots Wg (map (fun j => GL (xss j)) (seq 0 n))
+                            else untouched Wg)) (seq 0 n)).
+Proof.
+  intros n Hn HW Hok Ht H12 Hsrc.
+  apply (list_sync_lossless_gen fx g dst Wg xss d z Hn HW Hok Ht H12). intros He _. exact (Hsrc He).
 Qed.
 
 (* ------------------------------------------------------------------ sync_dict *)
@@ -685,29 +828,29 @@ Proof. induction l as [|[a b] l IH]; [reflexivity|]. cbn [map combine fst snd]. 
 Lemma map_repeat' {X Y} (f : X -> Y) x n : map f (repeat x n) = repeat (f x) n.
 Proof. induction n as [|n IH]; [reflexivity|]. cbn [repeat map]. f_equal. exact IH. Qed.
 
-Theorem dict_sync_lossless_same_keys g dst Wg (kvs : nat -> list (string * tensor)) (ks : list string) d z :
+Theorem dict_sync_lossless_same_keys fx g dst Wg (kvs : nat -> list (string * tensor)) (ks : list string) d z :
   let n := List.length g in
-  n > 0 -> n <= Wg -> dst_ok g dst -> ks <> [] ->
+  n > 0 -> n <= Wg -> dst_ok fx g dst -> (fx_d12 fx = true \/ ks <> []) ->
   (forall i, i < n -> map fst (sort_keys (kvs i)) = ks) ->
   (forall i, i < n -> forall kt, In kt (kvs i) -> tens_ok d z (snd kt)) ->
-  run_all (respond g) (map (fun i => sync_dict dst i Wg (kvs i)) (seq 0 n))
+  run_all (respond g) (map (fun i => sync_dict fx g dst i Wg (kvs i)) (seq 0 n))
   = Some (map (fun i => Ok (if receives dst i
                             then map (fun j => GD (sort_keys (kvs j))) (seq 0 n) ++ repeat (GD []) (Wg - n)
                             else untouched Wg)) (seq 0 n)).
 Proof.
   intros n Hn HW Hok Hks Hkeys Ht. unfold sync_dict. cbv zeta.
-  assert (Hlen : forall i, i < n -> map snd (sort_keys (kvs i)) <> []).
-  { intros i Hi E. apply Hks. rewrite <- (Hkeys i Hi).
-    apply (f_equal (@List.length _)) in E. rewrite map_length in E. cbn in E.
-    apply length_zero_iff_nil. rewrite map_length. exact E. }
-  bindr_with (fun i => sync_list dst i Wg (map snd (sort_keys (kvs i))))
+  assert (Hlen : forall i, i < n -> List.length (map snd (sort_keys (kvs i))) = List.length ks).
+  { intros i Hi. rewrite <- (Hkeys i Hi), !map_length. reflexivity. }
+  bindr_with (fun i => sync_list fx g dst i Wg (map snd (sort_keys (kvs i))))
              (fun i => if receives dst i
                        then pad_slots Wg (map (fun j => GL (map snd (sort_keys (kvs j)))) (seq 0 n))
                        else untouched Wg).
-  { apply (list_sync_lossless g dst Wg (fun i => map snd (sort_keys (kvs i))) d z Hn HW Hok).
+  { apply (list_sync_lossless_gen fx g dst Wg (fun i => map snd (sort_keys (kvs i))) d z Hn HW Hok).
     - intros i Hi t Hin. apply in_map_iff in Hin as (kt & <- & Hkt). apply (Ht i Hi), sort_keys_in, Hkt.
-    - exists 0. split; [exact Hn|apply Hlen, Hn].
-    - intros (i & Hi & E). exfalso. exact (Hlen i Hi E). }
+    - destruct Hks as [H12|Hks]; [left; exact H12|right]. exists 0. split; [exact Hn|].
+      intros E. apply Hks, length_zero_iff_nil. rewrite <- (Hlen 0 Hn), E. reflexivity.
+    - intros (i & Hi & E) (j & Hj & Ene). exfalso. apply Ene, length_zero_iff_nil.
+      rewrite (Hlen j Hj), <- (Hlen i Hi), E. reflexivity. }
   apply run_all_ret_ext. intros i Hi. apply in_seq in Hi. destruct (receives dst i); [|reflexivity].
   do 2 f_equal. rewrite pad_slots_seq, map_app, map_map. f_equal.
   - apply map_ext_in. intros j Hj. apply in_seq in Hj. cbn [glist].
@@ -716,88 +859,88 @@ Proof.
 Qed.
 
 (* ------------------------------------------------------------------ sync_tensor / ideal families *)
-Theorem tensor_sync_lossless g dst Wg (ts : nat -> tensor) d z : let n := List.length g in
-  n > 0 -> dst_ok g dst -> (forall i, i < n -> tens_ok d z (ts i)) ->
-  run_all (respond g) (map (fun i => sync_tensor dst i Wg (ts i)) (seq 0 n))
+Theorem tensor_sync_lossless fx g dst Wg (ts : nat -> tensor) d z : let n := List.length g in
+  n > 0 -> dst_ok fx g dst -> (forall i, i < n -> tens_ok d z (ts i)) ->
+  run_all (respond g) (map (fun i => sync_tensor fx g dst i Wg (ts i)) (seq 0 n))
   = Some (map (fun i => Ok (if receives dst i then pad_slots Wg (map (fun j => GT (ts j)) (seq 0 n))
                             else untouched Wg)) (seq 0 n)).
 Proof.
   intros n Hn Hok Ht. unfold sync_tensor.
-  bindr_with (fun i => send_tensors dst i (ts i)) (fun i => if receives dst i then Some (map ts (seq 0 n)) else None).
-  { apply (send_tensors_lossless g dst ts d z Hn Hok Ht). }
+  bindr_with (fun i => send_tensors fx g dst i (ts i)) (fun i => if receives dst i then Some (map ts (seq 0 n)) else None).
+  { apply (send_tensors_lossless fx g dst ts d z Hn Hok Ht). }
   apply run_all_ret_ext. intros i _. destruct (receives dst i); [|reflexivity]. rewrite map_map. reflexivity.
 Qed.
 
 (* the sync of one state (one traversal key) is ideal: every receiving rank obtains, for slot
    j < n, the ideal value [iv j] of rank j's state, and [tl] in the slots of ranks outside the group;
    the other ranks keep the untouched placeholders *)
-Definition ideal_family (g : list nat) (dst : option nat) (Wg : nat) (ss : nat -> state)
+Definition ideal_family (fx : fixes) (g : list nat) (dst : option nat) (Wg : nat) (ss : nat -> state)
            (iv : nat -> gs) (tl : gs) : Prop :=
-  run_all (respond g) (map (fun i => state_sync dst i Wg (ss i)) (seq 0 (List.length g)))
+  run_all (respond g) (map (fun i => state_sync fx g dst i Wg (ss i)) (seq 0 (List.length g)))
   = Some (map (fun i => Ok (if receives dst i
                             then map iv (seq 0 (List.length g)) ++ repeat tl (Wg - List.length g)
                             else untouched Wg)) (seq 0 (List.length g))).
 
-Lemma ideal_tensor g dst Wg (ts : nat -> tensor) d z :
-  List.length g > 0 -> dst_ok g dst -> (forall i, i < List.length g -> tens_ok d z (ts i)) ->
-  ideal_family g dst Wg (fun i => STensor (ts i)) (fun j => GT (ts j)) GEmpty.
+Lemma ideal_tensor fx g dst Wg (ts : nat -> tensor) d z :
+  List.length g > 0 -> dst_ok fx g dst -> (forall i, i < List.length g -> tens_ok d z (ts i)) ->
+  ideal_family fx g dst Wg (fun i => STensor (ts i)) (fun j => GT (ts j)) GEmpty.
 Proof.
   intros Hn Hok Ht. unfold ideal_family. cbn [state_sync].
-  rewrite (tensor_sync_lossless g dst Wg ts d z Hn Hok Ht). rewrite pad_slots_seq. reflexivity.
+  rewrite (tensor_sync_lossless fx g dst Wg ts d z Hn Hok Ht). rewrite pad_slots_seq. reflexivity.
 Qed.
-Lemma ideal_obj g dst Wg (vs : nat -> val) :
-  List.length g > 0 -> dst_ok g dst ->
-  ideal_family g dst Wg (fun i => SObj (vs i)) (fun j => GO (vs j)) GEmpty.
+Lemma ideal_obj fx g dst Wg (vs : nat -> val) :
+  List.length g > 0 -> dst_ok fx g dst ->
+  ideal_family fx g dst Wg (fun i => SObj (vs i)) (fun j => GO (vs j)) GEmpty.
 Proof.
   intros Hn Hok. unfold ideal_family. cbn [state_sync].
-  rewrite (obj_sync_lossless g dst Wg vs Hn Hok). rewrite pad_slots_seq. reflexivity.
+  rewrite (obj_sync_lossless fx g dst Wg vs Hn Hok). rewrite pad_slots_seq. reflexivity.
 Qed.
-Lemma ideal_list g dst Wg (xss : nat -> list tensor) d z : let n := List.length g in
-  n > 0 -> n <= Wg -> dst_ok g dst ->
+Lemma ideal_list fx g dst Wg (xss : nat -> list tensor) d z : let n := List.length g in
+  n > 0 -> n <= Wg -> dst_ok fx g dst ->
   (forall i, i < n -> forall t, In t (xss i) -> tens_ok d z t) ->
-  (exists i, i < n /\ xss i <> []) ->
-  ((exists i, i < n /\ xss i = []) -> g = seq 0 n) ->
-  ideal_family g dst Wg (fun i => SList (xss i)) (fun j => GL (xss j)) GEmpty.
+  (fx_d12 fx = true \/ exists i, i < n /\ xss i <> []) ->
+  ((exists i, i < n /\ xss i = []) -> (if fx_d9 fx then NoDup g else g = seq 0 n)) ->
+  ideal_family fx g dst Wg (fun i => SList (xss i)) (fun j => GL (xss j)) GEmpty.
 Proof.
   intros n Hn HW Hok Ht H1 H2. unfold ideal_family. cbn [state_sync].
-  rewrite (list_sync_lossless g dst Wg xss d z Hn HW Hok Ht H1 H2). rewrite pad_slots_seq. reflexivity.
+  rewrite (list_sync_lossless fx g dst Wg xss d z Hn HW Hok Ht H1 H2). rewrite pad_slots_seq. reflexivity.
 Qed.
-Lemma ideal_dict g dst Wg (kvs : nat -> list (string * tensor)) ks d z : let n := List.length g in
-  n > 0 -> n <= Wg -> dst_ok g dst -> ks <> [] ->
+Lemma ideal_dict fx g dst Wg (kvs : nat -> list (string * tensor)) ks d z : let n := List.length g in
+  n > 0 -> n <= Wg -> dst_ok fx g dst -> (fx_d12 fx = true \/ ks <> []) ->
   (forall i, i < n -> map fst (sort_keys (kvs i)) = ks) ->
   (forall i, i < n -> forall kt, In kt (kvs i) -> tens_ok d z (snd kt)) ->
-  ideal_family g dst Wg (fun i => SDict (kvs i)) (fun j => GD (sort_keys (kvs j))) (GD []).
+  ideal_family fx g dst Wg (fun i => SDict (kvs i)) (fun j => GD (sort_keys (kvs j))) (GD []).
 Proof.
   intros n Hn HW Hok Hks Hk Ht. unfold ideal_family. cbn [state_sync].
-  exact (dict_sync_lossless_same_keys g dst Wg kvs ks d z Hn HW Hok Hks Hk Ht).
+  exact (dict_sync_lossless_same_keys fx g dst Wg kvs ks d z Hn HW Hok Hks Hk Ht).
 Qed.
 
 (* ------------------------------------------------------------------ sync_states *)
-Lemma sync_loop_cons dst i Wg md k r gath :
-  sync_loop dst i Wg md (k :: r) gath
+Lemma sync_loop_cons fx g dst i Wg md k r gath :
+  sync_loop fx g dst i Wg md (k :: r) gath
   = match lookup2 md k with
-    | Some s => bindr (state_sync dst i Wg s) (fun vals => sync_loop dst i Wg md r (put k vals gath))
+    | Some s => bindr (state_sync fx g dst i Wg s) (fun vals => sync_loop fx g dst i Wg md r (put k vals gath))
     | None => Ret (Exc "KeyError")
     end.
 Proof. reflexivity. Qed.
 
-Lemma sync_loop_run g dst Wg (mds : nat -> mdict) (V : key -> list gs) : let n := List.length g in
+Lemma sync_loop_run fx g dst Wg (mds : nat -> mdict) (V : key -> list gs) : let n := List.length g in
   forall order,
   (forall k, In k order -> exists ss, (forall i, i < n -> lookup2 (mds i) k = Some (ss i)) /\
-     run_all (respond g) (map (fun i => state_sync dst i Wg (ss i)) (seq 0 n))
+     run_all (respond g) (map (fun i => state_sync fx g dst i Wg (ss i)) (seq 0 n))
      = Some (map (fun i => Ok (if receives dst i then V k else untouched Wg)) (seq 0 n))) ->
   forall G : nat -> list gdict,
-  run_all (respond g) (map (fun i => sync_loop dst i Wg (mds i) order (G i)) (seq 0 n))
+  run_all (respond g) (map (fun i => sync_loop fx g dst i Wg (mds i) order (G i)) (seq 0 n))
   = Some (map (fun i => Ok (fold_left (fun gt k => put k (if receives dst i then V k else untouched Wg) gt)
                                       order (G i))) (seq 0 n)).
 Proof.
   intros n. induction order as [|k r IH]; intros H G.
   - apply run_all_ret_ext. intros i _. reflexivity.
   - destruct (H k (or_introl eq_refl)) as (ss & Hl & Hrun).
-    refine (extK g (fun i => bindr (state_sync dst i Wg (ss i))
-                               (fun vals => sync_loop dst i Wg (mds i) r (put k vals (G i)))) _ _ _ _ _).
+    refine (extK g (fun i => bindr (state_sync fx g dst i Wg (ss i))
+                               (fun vals => sync_loop fx g dst i Wg (mds i) r (put k vals (G i)))) _ _ _ _ _).
     + intros i Hi. apply in_seq in Hi. rewrite sync_loop_cons, Hl by lia. reflexivity.
-    + bindr_with (fun i => state_sync dst i Wg (ss i)) (fun i => if receives dst i then V k else untouched Wg).
+    + bindr_with (fun i => state_sync fx g dst i Wg (ss i)) (fun i => if receives dst i then V k else untouched Wg).
       { exact Hrun. }
       rewrite (IH (fun k' Hk' => H k' (or_intror Hk'))
                   (fun i => put k (if receives dst i then V k else untouched Wg) (G i))).
@@ -807,18 +950,18 @@ Qed.
 Definition gath_of (V : key -> list gs) (order : list key) (Wg : nat) : list gdict :=
   fold_left (fun gt k => put k (V k) gt) order (repeat (template order) Wg).
 
-Lemma sync_states_run g dst Wg (mds : nat -> mdict) (V : key -> list gs) order : let n := List.length g in
+Lemma sync_states_run fx g dst Wg (mds : nat -> mdict) (V : key -> list gs) order : let n := List.length g in
   (forall k, In k order -> exists ss, (forall i, i < n -> lookup2 (mds i) k = Some (ss i)) /\
-     run_all (respond g) (map (fun i => state_sync dst i Wg (ss i)) (seq 0 n))
+     run_all (respond g) (map (fun i => state_sync fx g dst i Wg (ss i)) (seq 0 n))
      = Some (map (fun i => Ok (if receives dst i then V k else untouched Wg)) (seq 0 n))) ->
-  run_all (respond g) (map (fun i => sync_states dst i Wg (mds i) order) (seq 0 n))
+  run_all (respond g) (map (fun i => sync_states fx g dst i Wg (mds i) order) (seq 0 n))
   = Some (map (fun i => Ok (if receives dst i then Some (gath_of V order Wg) else None)) (seq 0 n)).
 Proof.
   intros n H. unfold sync_states.
-  bindr_with (fun i => sync_loop dst i Wg (mds i) order (repeat (template order) Wg))
+  bindr_with (fun i => sync_loop fx g dst i Wg (mds i) order (repeat (template order) Wg))
              (fun i => fold_left (fun gt k => put k (if receives dst i then V k else untouched Wg) gt)
                                  order (repeat (template order) Wg)).
-  { apply (sync_loop_run g dst Wg mds V order H (fun _ => repeat (template order) Wg)). }
+  { apply (sync_loop_run fx g dst Wg mds V order H (fun _ => repeat (template order) Wg)). }
   apply run_all_ret_ext. intros i _. destruct (receives dst i); reflexivity.
 Qed.
 
@@ -909,13 +1052,13 @@ Proof.
     apply H; [exact Hk|]. rewrite nth_repeat' by exact Hj. rewrite get_template by exact Hk. discriminate.
 Qed.
 
-Theorem mixed_collection_addressing g dst Wg (mds : nat -> mdict) (order : list key)
+Theorem mixed_collection_addressing fx g dst Wg (mds : nat -> mdict) (order : list key)
         (iv : key -> nat -> gs) (tl : key -> gs) : let n := List.length g in
   n <= Wg ->
   (forall k, In k order -> exists ss, (forall i, i < n -> lookup2 (mds i) k = Some (ss i)) /\
-                                      ideal_family g dst Wg ss (iv k) (tl k)) ->
+                                      ideal_family fx g dst Wg ss (iv k) (tl k)) ->
   exists gath,
-    run_all (respond g) (map (fun i => sync_states dst i Wg (mds i) order) (seq 0 n))
+    run_all (respond g) (map (fun i => sync_states fx g dst i Wg (mds i) order) (seq 0 n))
     = Some (map (fun i => Ok (if receives dst i then Some gath else None)) (seq 0 n)) /\
     List.length gath = Wg /\
     (forall j k, j < n -> In k order -> get_key k (nth j gath []) = Some (iv k j)) /\
@@ -925,7 +1068,7 @@ Proof.
   set (V := fun k => map (iv k) (seq 0 n) ++ repeat (tl k) (Wg - n)).
   assert (HV : forall k, In k order -> List.length (V k) = Wg).
   { intros k _. unfold V. rewrite app_length, map_length, seq_length, repeat_length. lia. }
-  exists (gath_of V order Wg). split; [apply (sync_states_run g dst Wg mds V order H)|].
+  exists (gath_of V order Wg). split; [apply (sync_states_run fx g dst Wg mds V order H)|].
   destruct (gath_of_spec V order Wg HV) as [Hl Hg]. split; [exact Hl|]. split.
   - intros j k Hj Hk. rewrite Hg by (assumption || lia). f_equal. unfold V.
     rewrite app_nth1 by (rewrite map_length, seq_length; exact Hj). apply nth_map_seq, Hj.
@@ -1000,16 +1143,16 @@ Proof.
       rewrite map_length, seq_length. lia.
 Qed.
 
-Theorem mixed_collection_exact g dst Wg (mds : nat -> mdict) (order : list key)
+Theorem mixed_collection_exact fx g dst Wg (mds : nat -> mdict) (order : list key)
         (iv : key -> nat -> gs) (tl : key -> gs) : let n := List.length g in
   n <= Wg -> NoDup order ->
   (forall k, In k order -> exists ss, (forall i, i < n -> lookup2 (mds i) k = Some (ss i)) /\
-                                      ideal_family g dst Wg ss (iv k) (tl k)) ->
-  run_all (respond g) (map (fun i => sync_states dst i Wg (mds i) order) (seq 0 n))
+                                      ideal_family fx g dst Wg ss (iv k) (tl k)) ->
+  run_all (respond g) (map (fun i => sync_states fx g dst i Wg (mds i) order) (seq 0 n))
   = Some (map (fun i => Ok (if receives dst i then Some (ideal_gath n Wg order iv tl) else None)) (seq 0 n)).
 Proof.
   intros n HW Hnd H. rewrite <- (gath_of_explicit n Wg order iv tl Hnd HW).
-  apply (sync_states_run g dst Wg mds _ order H).
+  apply (sync_states_run fx g dst Wg mds _ order H).
 Qed.
 
 (* ------------------------------------------------------------------ structural sufficient condition *)
@@ -1020,50 +1163,80 @@ Definition filler (s : state) : gs := match s with SDict _ => GD [] | _ => GEmpt
 
 (* the states held by the ranks under one key agree in kind and satisfy the hypotheses of the
    corresponding losslessness theorem *)
-Definition kind_ok (g : list nat) (ss : nat -> state) : Prop :=
+Definition kind_ok (fx : fixes) (g : list nat) (ss : nat -> state) : Prop :=
   let n := List.length g in
   (exists ts d z, forall i, i < n -> ss i = STensor (ts i) /\ tens_ok d z (ts i)) \/
   (exists vs, forall i, i < n -> ss i = SObj (vs i)) \/
   (exists xss d z, (forall i, i < n -> ss i = SList (xss i) /\ forall t, In t (xss i) -> tens_ok d z t) /\
-      (exists i, i < n /\ xss i <> []) /\ ((exists i, i < n /\ xss i = []) -> g = seq 0 n)) \/
-  (exists kvs ks d z, ks <> [] /\
+      (fx_d12 fx = true \/ exists i, i < n /\ xss i <> []) /\
+      ((exists i, i < n /\ xss i = []) -> (if fx_d9 fx then NoDup g else g = seq 0 n))) \/
+  (exists kvs ks d z, (fx_d12 fx = true \/ ks <> []) /\
       forall i, i < n -> ss i = SDict (kvs i) /\ map fst (sort_keys (kvs i)) = ks /\
                          forall kt, In kt (kvs i) -> tens_ok d z (snd kt)).
 
-Lemma ideal_family_ext g dst Wg ss ss' iv iv' tl :
+Lemma ideal_family_ext fx g dst Wg ss ss' iv iv' tl :
   (forall i, i < List.length g -> ss i = ss' i) -> (forall j, j < List.length g -> iv j = iv' j) ->
-  ideal_family g dst Wg ss' iv' tl -> ideal_family g dst Wg ss iv tl.
+  ideal_family fx g dst Wg ss' iv' tl -> ideal_family fx g dst Wg ss iv tl.
 Proof.
   unfold ideal_family. intros Hs Hi H.
-  refine (extK g (fun i => state_sync dst i Wg (ss' i)) _ _ _ _ _).
+  refine (extK g (fun i => state_sync fx g dst i Wg (ss' i)) _ _ _ _ _).
   - intros i Hin. apply in_seq in Hin. rewrite Hs by lia. reflexivity.
   - etransitivity; [exact H|]. f_equal. apply map_ext. intros i. destruct (receives dst i); [|reflexivity].
     do 2 f_equal. apply map_ext_in. intros j Hj. apply in_seq in Hj. symmetry. apply Hi. lia.
 Qed.
 
-Lemma ideal_of_kind g dst Wg ss : let n := List.length g in
-  n > 0 -> n <= Wg -> dst_ok g dst -> kind_ok g ss ->
-  ideal_family g dst Wg ss (fun j => ideal_of_state (ss j)) (filler (ss 0)).
+Lemma ideal_of_kind fx g dst Wg ss : let n := List.length g in
+  n > 0 -> n <= Wg -> dst_ok fx g dst -> kind_ok fx g ss ->
+  ideal_family fx g dst Wg ss (fun j => ideal_of_state (ss j)) (filler (ss 0)).
 Proof.
   intros n Hn HW Hok [(ts & d & z & H)|[(vs & H)|[(xss & d & z & H & H1 & H2)|(kvs & ks & d & z & Hks & H)]]].
   - rewrite (proj1 (H 0 Hn)). cbn [filler].
-    apply (ideal_family_ext g dst Wg ss (fun i => STensor (ts i)) _ (fun j => GT (ts j))).
+    apply (ideal_family_ext fx g dst Wg ss (fun i => STensor (ts i)) _ (fun j => GT (ts j))).
     + intros i Hi. apply (H i Hi).
     + intros j Hj. rewrite (proj1 (H j Hj)). reflexivity.
-    + apply (ideal_tensor g dst Wg ts d z Hn Hok). intros i Hi. apply (H i Hi).
+    + apply (ideal_tensor fx g dst Wg ts d z Hn Hok). intros i Hi. apply (H i Hi).
   - rewrite (H 0 Hn). cbn [filler].
-    apply (ideal_family_ext g dst Wg ss (fun i => SObj (vs i)) _ (fun j => GO (vs j))).
+    apply (ideal_family_ext fx g dst Wg ss (fun i => SObj (vs i)) _ (fun j => GO (vs j))).
     + exact H.
     + intros j Hj. rewrite (H j Hj). reflexivity.
-    + apply (ideal_obj g dst Wg vs Hn Hok).
+    + apply (ideal_obj fx g dst Wg vs Hn Hok).
   - rewrite (proj1 (H 0 Hn)). cbn [filler].
-    apply (ideal_family_ext g dst Wg ss (fun i => SList (xss i)) _ (fun j => GL (xss j))).
+    apply (ideal_family_ext fx g dst Wg ss (fun i => SList (xss i)) _ (fun j => GL (xss j))).
     + intros i Hi. apply (H i Hi).
     + intros j Hj. rewrite (proj1 (H j Hj)). reflexivity.
-    + apply (ideal_list g dst Wg xss d z Hn HW Hok); [|exact H1|exact H2]. intros i Hi. apply (H i Hi).
+    + apply (ideal_list fx g dst Wg xss d z Hn HW Hok); [|exact H1|exact H2]. intros i Hi. apply (H i Hi).
   - rewrite (proj1 (H 0 Hn)). cbn [filler].
-    apply (ideal_family_ext g dst Wg ss (fun i => SDict (kvs i)) _ (fun j => GD (sort_keys (kvs j)))).
+    apply (ideal_family_ext fx g dst Wg ss (fun i => SDict (kvs i)) _ (fun j => GD (sort_keys (kvs j)))).
     + intros i Hi. apply (H i Hi).
     + intros j Hj. rewrite (proj1 (H j Hj)). reflexivity.
-    + apply (ideal_dict g dst Wg kvs ks d z Hn HW Hok Hks); intros i Hi; apply (H i Hi).
+    + apply (ideal_dict fx g dst Wg kvs ks d z Hn HW Hok Hks); intros i Hi; apply (H i Hi).
+Qed.
+
+(* ------------------------------------------------------------------ the repaired variant *)
+Lemma dst_ok_fixed g dst : NoDup g -> (match dst with Some d => d < List.length g | None => True end) ->
+  dst_ok V_fixed g dst.
+Proof. intros Hnd H. destruct dst as [d|]; [|exact I]. split; [exact H|exact Hnd]. Qed.
+
+(* any duplicate-free group, any named rank d < n *)
+Corollary send_tensors_lossless_fixed g dst (ts : nat -> tensor) d z : let n := List.length g in
+  n > 0 -> NoDup g -> (match dst with Some d => d < n | None => True end) ->
+  (forall i, i < n -> tens_ok d z (ts i)) ->
+  run_all (respond g) (map (fun i => send_tensors V_fixed g dst i (ts i)) (seq 0 n))
+  = Some (map (fun i => Ok (if receives dst i then Some (map ts (seq 0 n)) else None)) (seq 0 n)).
+Proof.
+  intros n Hn Hnd Hd Ht. exact (send_tensors_lossless V_fixed g dst ts d z Hn (dst_ok_fixed g dst Hnd Hd) Ht).
+Qed.
+
+(* no all-empty exception, any duplicate-free group *)
+Corollary list_sync_lossless_fixed g dst Wg (xss : nat -> list tensor) d z : let n := List.length g in
+  n > 0 -> n <= Wg -> NoDup g -> (match dst with Some d => d < n | None => True end) ->
+  (forall i, i < n -> forall t, In t (xss i) -> tens_ok d z t) ->
+  run_all (respond g) (map (fun i => sync_list V_fixed g dst i Wg (xss i)) (seq 0 n))
+  = Some (map (fun i => Ok (if receives dst i then pad_slots Wg (map (fun j => GL (xss j)) (seq 0 n))
+                            else untouched Wg)) (seq 0 n)).
+Proof.
+  intros n Hn HW Hnd Hd Ht.
+  apply (list_sync_lossless V_fixed g dst Wg xss d z Hn HW (dst_ok_fixed g dst Hnd Hd) Ht).
+  - left. reflexivity.
+  - intros _. exact Hnd.
 Qed.
